@@ -139,6 +139,12 @@ class Model(HoloPyObject):
         model = cls(**kwargs)
         if model._parameters == parameters:
             model._parameter_names = fields['_parameter_names']
+        elif len(parameters) < len(model._parameters):
+            # ties between the scatterer and other arguments are not rebuilt
+            # by the constructor: take them from the saved description
+            model._parameters = parameters
+            model._parameter_names = fields['_parameter_names']
+            model._maps = maps
         else:
             msg = ("Detected inconsistencies when reloading Model. "
                    "It may differ from previously saved object")
